@@ -122,6 +122,19 @@ def run(chk):
         open(p, "wb").write(data)
         A = {(n, 0): v for n, v in doc.objects.items()}
         inputs.append((name, p, "generated", A, dict(doc.trailer)))
+    # the same kind of documents in every input file FORM (C03's file-structure generator, which carries its own ground truth):
+    # classic tables with subsections, xref streams with predictors and filter chains, object streams, hybrid files, incremental
+    # updates with replaced / freed / re-used numbers at non-zero generations, junk before the header, odd white space
+    import c03files
+    for i in range(6 if quick else 80):
+        g = c03files.Gen(rng, rng.choice([0.0, 0.3, 0.7, 1.0]))
+        data, live, freed, meta = g.build(i)
+        if meta["form"] == "hybrid-free":
+            continue            # known finding D15 class is C03's business
+        p = os.path.join(wd, "form%d.pdf" % i)
+        open(p, "wb").write(data)
+        A = {(n, gv[0]): gv[1] for n, gv in live.items()}
+        inputs.append(("form%d-%s" % (i, meta["form"]), p, "generated-file-form", A, {b"Root": Ref(1)}))
     cf = [f for f in filecheck.corpus_files() if os.path.getsize(f) <= 60000]
     sel = rng.sample(cf, 40 if quick else min(len(cf), 450))
     sr = filecheck.strict_read(sel)
@@ -141,7 +154,7 @@ def run(chk):
     cfgs = filecheck.CONFIGS_QUICK
     jobs = []
     for inp in inputs:
-        use = cfgs if (inp[2] == "generated" or not quick) else rng.sample(cfgs, 5)
+        use = cfgs if (inp[2] == "generated" or not quick) else rng.sample(cfgs, 5 if inp[2] == "corpus" else 10)
         for cfg in use:
             jobs.append((inp, cfg))
 
